@@ -36,3 +36,7 @@ claim('C09', 'Hypothesis-generated segments, split/crop parameters and paths (cl
       'About 20k (quick) / 300k (thorough) cases: reversed/split/cropped of every segment class compared with point() under the stated reparameterisation at 9+ parameters; path reversed() mirror and length; path cropped() start/end/joints/length incl. T at joints, T1<T0 on closed paths and paths containing a segment twice.',
       'Trusts: point() (C03/C04), length() (C06), T2t (C05); arc tolerances as in C04; crops below the joint-snapping resolution are excluded and recorded as KF04.',
       'DESIGN.md 2/C09')
+claim('C10', 'Hypothesis-generated curves x operations (translation, rotation, uniform/non-uniform scale, structured affine matrices); metamorphic oracle op(curve).point(t) == map(curve.point(t)) and exact joint preservation',
+      'About 12k (quick) / 300k (thorough) (curve, operation) pairs over all segment types and open/closed paths; matrices are products of rotations, scales, reflections (incl. about y=x), shears and translations with condition number <= 1e3; the image of an arc must be an arc tracing the mapped points at every sampled parameter; every joint that coincided exactly, the closing one included, must coincide exactly afterwards; non-uniform scaled() of arcs must raise.',
+      'Trusts: point() (C03/C04); tolerance model in the evidence assumptions.',
+      'DESIGN.md 2/C10')
